@@ -104,6 +104,31 @@ class XF:
     def __truediv__(self, o): return XF._div(self, o)
     def __rtruediv__(self, o): return XF._div(o, self)
 
+    # IEEE comparisons: false whenever a nan is involved
+    def _gt(a, b):
+        a, b = XF.of(a), XF.of(b)
+        return XB(z3.And(a.kind != NAN, b.kind != NAN,
+                         z3.Or(z3.And(a.kind == FIN, b.kind == FIN, a.r > b.r), z3.And(a.kind == PINF, b.kind != PINF), z3.And(b.kind == NINF, a.kind != NINF))))
+
+    def _ge(a, b):
+        a, b = XF.of(a), XF.of(b)
+        return XB(z3.And(a.kind != NAN, b.kind != NAN,
+                         z3.Or(z3.And(a.kind == FIN, b.kind == FIN, a.r >= b.r), a.kind == PINF, b.kind == NINF)))
+
+    def __gt__(self, o): return XF._gt(self, o)
+    def __lt__(self, o): return XF._gt(o, self)
+    def __ge__(self, o): return XF._ge(self, o)
+    def __le__(self, o): return XF._ge(o, self)
+
+    def __eq__(self, o):
+        a, b = self, XF.of(o)
+        return XB(z3.And(a.kind != NAN, b.kind != NAN, a.kind == b.kind, z3.Or(a.kind != FIN, a.r == b.r)))
+
+    def __ne__(self, o):
+        return XB(z3.Not(self.__eq__(o).z))
+
+    __hash__ = None
+
     def __pow__(self, n):
         if not isinstance(n, int) or n < 1:
             raise TypeError("XF power %r" % (n,))
@@ -134,12 +159,49 @@ class XF:
         return out
 
 
+class XB:
+    """truth value of a comparison of extended reals (a z3 Bool); only numpy.where may consume it"""
+
+    def __init__(self, z):
+        self.z = z
+
+    def __invert__(self):
+        return XB(z3.Not(self.z))
+
+    def __and__(self, o):
+        return XB(z3.And(self.z, o.z))
+
+    def __or__(self, o):
+        return XB(z3.Or(self.z, o.z))
+
+    def __bool__(self):
+        from .core import OutsideSubset
+        raise OutsideSubset("a Python branch on a comparison of extended reals")
+
+
 class XNumpy:
     """numpy stub for scalar extended-real runs"""
     newaxis = None
 
     def exp(self, x):
         return XF.of(x).exp()
+
+    def where(self, cond, a, b):
+        if not isinstance(cond, XB):
+            from .core import OutsideSubset
+            raise OutsideSubset("numpy.where on %r in an extended-real run" % (cond,))
+        a, b = XF.of(a), XF.of(b)
+        return XF(z3.If(cond.z, a.kind, b.kind), z3.If(cond.z, a.r, b.r))
+
+    def errstate(self, **kw):
+        import contextlib
+        return contextlib.nullcontext()
+
+    def isfinite(self, x):
+        return XB(XF.of(x).kind == FIN)
+
+    def isnan(self, x):
+        return XB(XF.of(x).kind == NAN)
 
     def __getattr__(self, name):
         from .core import OutsideSubset
